@@ -15,14 +15,14 @@ ROOTS = ["CircularBuffer::truncate_back", "CircularBuffer::truncate_front", "Cir
          "CircularBuffer::extend_from_slice", "Extend for CircularBuffer::extend", "FromIterator for CircularBuffer::from_iter",
          "Clone for CircularBuffer::clone", "Clone for CircularBuffer::clone_from", "From for CircularBuffer::from",
          "Drop for Drain::drop", "Drain::over_range", "Iter::over_range", "IterMut::over_range", "Drop for CircularBuffer::drop",
-         "CircularBuffer::swap", "Index for CircularBuffer::index", "IndexMut for CircularBuffer::index_mut", "add_mod", "sub_mod"]
+         "PartialEq for CircularBuffer::eq", "CircularBuffer::swap", "Index for CircularBuffer::index", "IndexMut for CircularBuffer::index_mut", "add_mod", "sub_mod"]
 
 # scenario -> (native op for replay, parameters)
 NATIVE_OP = {
     'TRUNCATE_BACK': 'truncate_back', 'TRUNCATE_FRONT': 'truncate_front', 'CLEAR': 'clear', 'BUFFER_DROP': 'drop',
     'FILL': 'fill', 'FILL_SPARE': 'fill_spare', 'FILL_WITH': 'fill_with', 'FILL_SPARE_WITH': 'fill_spare_with',
     'EXTEND_FROM_SLICE': 'extend_from_slice', 'EXTEND_ITER': 'extend', 'FROM_ITER': 'from_iter', 'CLONE': 'clone',
-    'CLONE_FROM': 'clone_from', 'FROM_ARRAY': 'from_array', 'DRAIN_DROP': 'drain_drop',
+    'CLONE_FROM': 'clone_from', 'FROM_ARRAY': 'from_array', 'DRAIN_DROP': 'drain_drop', 'EQ': 'eq',
     'OVER_RANGE_DRAIN': 'drain_new', 'OVER_RANGE_ITER': 'range', 'OVER_RANGE_ITERMUT': 'range_mut',
     'SWAP': 'swap', 'INDEX': 'index', 'INDEX_MUT': 'index_mut',
 }
